@@ -18,27 +18,51 @@ func emitHere(sev int, txt string, rep int) {
 	switch sev {
 	case 1:
 		for i := 0; i < rep; i++ {
-			log.Trace(txt)
+			if len(txt)%2 == 1 { // the formatted variant for every other text
+				log.Tracef("%s", txt)
+			} else {
+				log.Trace(txt)
+			}
 		}
 	case 2:
 		for i := 0; i < rep; i++ {
-			log.Debug(txt)
+			if len(txt)%2 == 1 { // the formatted variant for every other text
+				log.Debugf("%s", txt)
+			} else {
+				log.Debug(txt)
+			}
 		}
 	case 3:
 		for i := 0; i < rep; i++ {
-			log.Info(txt)
+			if len(txt)%2 == 1 { // the formatted variant for every other text
+				log.Infof("%s", txt)
+			} else {
+				log.Info(txt)
+			}
 		}
 	case 4:
 		for i := 0; i < rep; i++ {
-			log.Warning(txt)
+			if len(txt)%2 == 1 { // the formatted variant for every other text
+				log.Warningf("%s", txt)
+			} else {
+				log.Warning(txt)
+			}
 		}
 	case 5:
 		for i := 0; i < rep; i++ {
-			log.Error(txt)
+			if len(txt)%2 == 1 { // the formatted variant for every other text
+				log.Errorf("%s", txt)
+			} else {
+				log.Error(txt)
+			}
 		}
 	default:
 		for i := 0; i < rep; i++ {
-			log.Critical(txt)
+			if len(txt)%2 == 1 { // the formatted variant for every other text
+				log.Criticalf("%s", txt)
+			} else {
+				log.Critical(txt)
+			}
 		}
 	}
 }
